@@ -17,6 +17,29 @@ CLAIMED = {
         technique='automata equivalence on compiler-extracted DFAs + MIR dataflow rules (static analysis)',
         engine='A+C',
     ),
+    'C02': dict(
+        category='model_checking',
+        text='Exhaustive exploration of the scanner code (its MIR, abstractly interpreted) in product with det(M_O), the RFC grammar with zero-width component markers, for the '
+             'four owners and all 42 accessor wirings extracted from MIR (5 accessors, RiImpl::scheme, every parts() field): for EVERY valid input of any length the returned range '
+             'is exactly the specification span (presence vs emptiness included, UTF-8 boundaries for the IRI family), no index/overflow assertion can fail, the scanner terminates. '
+             'Span languages ⊆ wrap-type languages; scanned bytes are the stored text for borrowed and owned implementors; order/non-overlap of the spans on M_O. The abstract space is '
+             'finite (cursor-relative positions with exact gap bound K=4, byte classes split on demand) and explored completely.',
+        design_ref='DESIGN.md §3 Engine B, Appendix A, §4 C02',
+        note='Not a run of the library: traces_validated_against_impl = 0 by construction. Trusted: MIR subset semantics and summaries in iv/scan.py; marker grammars spec/markers-*.abnf '
+             '(their marker-erased projection is checked equal to the compiled owner automaton on every run). Recomposition (§5.3) follows from the marker grammar shape: components + literal delimiters tile the word.',
+        technique='abstract interpretation of MIR in product with a marked grammar automaton (typestate / static analysis)',
+        engine='B',
+    ),
+    'C03': dict(
+        category='model_checking',
+        text='Same engine as C02 for the authority: user_info(), host(), port() and the three fields of parts() for uri:: and iri:: Authority (12 obligations) against the marked '
+             'authority grammar, for every valid authority (IP-literals containing ":", ":" inside user info, empty host, empty-but-present port); accessors and parts() are compared with the same spans, hence agree.',
+        design_ref='DESIGN.md §3 Engine B, §4 C03',
+        note='Genuine defects F1/F2 (host of an IP-literal authority) were repaired in /repo by a fix: commit; the check reports them with witnesses "[" / "@[:" on the pre-fix tree. '
+             'Authority inside a URI/IRI: the authority range itself is a C02 obligation; the same scanners then run on that sub-slice.',
+        technique='abstract interpretation of MIR in product with a marked grammar automaton (typestate / static analysis)',
+        engine='B',
+    ),
     'C07': dict(
         category='other',
         text='Claimed in part. Decides, as a statement about the code of every eq (hence for all pairs): the projections each hand-written == compares are exactly the '
